@@ -124,6 +124,18 @@ func preload(w *e2e.World) error {
 			return fmt.Errorf("preload %s: %d %s", app, c, b)
 		}
 	}
+	// a stream whose lines carry 2600 distinct values of one JSON field: more series than an in-process aggregation accepts
+	// (2000) - the stage fails of its own accord while the scan still has batches to deliver
+	{
+		var bv []string
+		for i := 0; i < 2600; i++ {
+			bv = append(bv, fmt.Sprintf(`["%d","{\"u\":\"u%d\"}"]`, int64(day0)*1e9+int64(i)*20e6, i))
+		}
+		body = `{"streams":[{"stream":{"app":"big3","env":"load"},"values":[` + strings.Join(bv, ",") + `]}]}`
+		if c, b := w.Push("POST", "/loki/api/v1/push", "application/json", []byte(body), nil); c != 204 {
+			return fmt.Errorf("preload big3: %d %s", c, b)
+		}
+	}
 	// metric samples through the Loki values layout with a numeric third element
 	var mv []string
 	for i := 0; i < 30; i++ {
@@ -396,6 +408,7 @@ var queryClasses = map[string]map[string]string{
 		"big_json_err": `{app="big"} | json`,
 		"big_fmt":      `{app="big2"} | line_format "{{.msg}}"`,
 		"big_metric":   `sum by (app) (count_over_time({app="big2"} | json [10s]))`,
+		"big_too_many": `sum by (app) (count_over_time({app="big3"} | json [10s]))`,
 		"metric_rate":  `rate({app="a1"}[5s])`,
 		"metric_agg":   `sum by (app) (count_over_time({env=~".+"}[10s]))`,
 		"metric_unw":   `sum_over_time({app="a1"} | json | unwrap n [10s]) by (app)`,
@@ -896,7 +909,7 @@ func runShard(reqs []Req, probe Req, add func(Finding), mu *sync.Mutex, codes ma
 			add(Finding{Signature: "handler-panic|" + ep, Msg: fmt.Sprintf("request %q panics in the handler goroutine without a response", rq.Label), Label: rq.Label, Req: rq})
 		}
 		// goroutine census after every request that had a fault or an error status, and periodically
-		if rq.Fault != "none" || rs.Code >= 400 || i%10 == 9 {
+		if rq.Fault != "none" || rs.Code >= 400 || i%10 == 9 || strings.Contains(rq.Label, "q=big_") {
 			cs, ok := ch.send(Req{ID: -1, Settle: true})
 			if !ok {
 				stderr := ch.stderr.String()
